@@ -1339,9 +1339,6 @@ coap_io_prepare_io_lkd(coap_context_t *ctx,
   *num_sockets = 0;
 
 #if COAP_SERVER_SUPPORT
-  /* Check to see if we need to send off any Observe requests */
-  coap_check_notify_lkd(ctx);
-
 #if COAP_ASYNC_SUPPORT
   /* Check to see if we need to send off any Async requests */
   timeout = coap_check_async(ctx, now);
@@ -1355,6 +1352,15 @@ coap_io_prepare_io_lkd(coap_context_t *ctx,
     coap_retransmit(ctx, coap_pop_next(ctx));
     nextpdu = coap_peek_next(ctx);
   }
+#if COAP_SERVER_SUPPORT
+  /*
+   * Check to see if we need to send off any Observe requests.  Done after the
+   * retransmissions as giving up on a Confirmable frees the NSTART slot that
+   * a deferred notification is waiting for.
+   */
+  coap_check_notify_lkd(ctx);
+  nextpdu = coap_peek_next(ctx);
+#endif /* COAP_SERVER_SUPPORT */
   if (nextpdu && (timeout == 0 ||
                   nextpdu->t - (now - ctx->sendqueue_basetime) < timeout))
     timeout = nextpdu->t - (now - ctx->sendqueue_basetime);
